@@ -62,7 +62,7 @@ def check(case):
         raise Violation(["nondeterministic"], "murmur3_32(%r, %#x) gave %r then %r" % (s[:40], seed, got, again))
     b = refhash.latin1(s)
     if b is None:
-        labels.append("non-latin1 One RendezvousHash shared by two threads, pre-empted once (some twice) at every bytecode of the ring's code: every lookup gives what the rule gives. Input lengths run to 800 (every length) and a few far beyond: the function has no bound, and a node name, a dash and a 250-byte key make some 300 bytes.")
+        labels.append("non-latin1 One RendezvousHash shared by two threads, pre-empted once (some twice) at every bytecode of the ring's code: every lookup gives what the rule gives. Input lengths run to 800 (every length) and a few far beyond: the function has no bound, and a node name, a dash and a 250-byte key make some 300 bytes. One long-lived ring places 18 000 to 40 000 different keys (more than 65 536 scored strings) like the rule.")
         return True, labels
     want = refhash.murmur3(b, seed)
     c = refhash.c_reference()
